@@ -23,9 +23,9 @@ EXPLANATION = (
     "finished branch, raises the stored state), _pauseCount 0<->1 transitions coupled with _removeTask/_addTask (guard dominance, either spelling), resume "
     "skips finished tasks, a yielded Deferred pauses the task before callbacks are registered (must-precede) and those callbacks resume / fail it; next() is "
     "covered by a BaseException handler (exception-escape), StopIteration first. "
-    "Completed once with the right result - take-then-fire / once-guard per _completeWith call site (finding F11 at the yielded Deferred's errback), "
+    "Completed once with the right result - take-then-fire / once-guard per _completeWith call site (finding F11 at the yielded Deferred's errback, repaired by fix 5382e1f; a snapshot of _tasks does not count as proof), "
     "state/result table agreement, state stored and task removed before the waiters fire (must-precede), whenDone registers only while incomplete (late "
-    "registration guard), no loop iterates the live list its body mutates through the call graph (finding F11b in Cooperator.stop), coiterate chains. "
+    "registration guard), no loop iterates the live list its body mutates through the call graph (finding F11b in Cooperator.stop, repaired by fix 418f287), Cooperator.stop completes every runnable task, coiterate chains. "
     "No starvation - must-pass / who-may-write: iterator renewed only on exhaustion, a task advanced before the predicate is consulted, _tick clears "
     "_delayedCall before rescheduling and always reschedules, _reschedule schedules one remembered tick when idle with work, _addTask wakes the scheduler, "
     "cancelled ticks are forgotten and only cancelled when idle. "
@@ -253,8 +253,9 @@ def check(ctx):
                         if isinstance(p, ast.For) and isinstance(p.target, ast.Name) and p.target.id == recv:
                             loop = p
                             break
-                    if loop is not None and (src(loop.iter) == "self._tasks" or _snapshot_of(loop.iter, "self._tasks")):
-                        ok = True  # in _tasks  =>  not complete
+                    if loop is not None and src(loop.iter) == "self._tasks":
+                        ok = True  # the element a live list iterator delivers is in _tasks  =>  not complete
+                        # (an element of a *snapshot* may have been completed meanwhile by a whenDone callback of an earlier one: needs a guard)
                     else:
                         apps = gfind(gf, lambda x: isinstance(x, ast.Call) and call_name(x) == "self._tasks.append" and len(x.args) == 1 and src(x.args[0]) == recv)
                         if apps and gf.must_precede(apps, ns) is None and qn == "Cooperator._addTask":
@@ -704,7 +705,13 @@ def is_const_num(node, value):
     return isinstance(node, ast.Constant) and type(node.value) is int and node.value == value
 
 
-_STOPLOOP = "        for taskObj in self._tasks:\n            taskObj._completeWith(SchedulerStopped(), Failure(SchedulerStopped()))\n        self._tasks = []\n"
+_STOPLOOP = ("        while self._tasks:\n            self._tasks[0]._completeWith(\n                SchedulerStopped(), Failure(SchedulerStopped())\n            )\n"
+             "        self._tasks = []\n")
+_FAILLATER = ("                def failLater(failure: Failure) -> Optional[Failure]:\n                    if self._completionState is not None:\n"
+              "                        # This task was stopped (or otherwise finished) while\n                        # it was waiting: whenDone() has already fired, so\n"
+              "                        # leave the failure to the Deferred's own chain.\n                        return failure\n"
+              "                    self._completeWith(TaskFailed(), failure)\n                    return None\n")
+_REGISTER = "                result.addCallbacks(lambda result: self.resume(), failLater)\n"
 
 MUTANTS = [
     Mutant("stop-completes-finished-task", TASK, "        self._checkFinish()\n        self._completeWith(TaskStopped(), Failure(TaskStopped()))\n",
@@ -714,9 +721,8 @@ MUTANTS = [
            expect_rule="resume/finished-stays-out"),
     Mutant("narrow-handler-to-Exception", TASK, "        except BaseException:\n            self._completeWith(TaskFailed(), Failure())",
            "        except Exception:\n            self._completeWith(TaskFailed(), Failure())", expect_rule="advance/every-exception-completes"),
-    Mutant("register-before-pause", TASK, "                self.pause()\n\n                def failLater(failure: Failure) -> None:\n                    self._completeWith(TaskFailed(), failure)\n\n                result.addCallbacks(lambda result: self.resume(), failLater)\n",
-           "                def failLater(failure: Failure) -> None:\n                    self._completeWith(TaskFailed(), failure)\n\n                result.addCallbacks(lambda result: self.resume(), failLater)\n                self.pause()\n",
-           expect_rule="advance/pause-before-callbacks"),
+    Mutant("register-before-pause", TASK, "                self.pause()\n\n" + _FAILLATER + "\n" + _REGISTER,
+           _FAILLATER + "\n" + _REGISTER + "                self.pause()\n", expect_rule="advance/pause-before-callbacks"),
     Mutant("state-stored-after-fire", TASK, "        self._completionState = completionState\n        self._completionResult = deferredResult\n        if not self._pauseCount:",
            "        self._completionResult = deferredResult\n        if not self._pauseCount:",
            more=[(TASK, "        for d in self._deferreds:\n            d.callback(deferredResult)\n", "        for d in self._deferreds:\n            d.callback(deferredResult)\n        self._completionState = completionState\n")],
@@ -743,6 +749,15 @@ MUTANTS = [
     Mutant("remove-cancels-tick-with-work-left", TASK, "        if not self._tasks and self._delayedCall:\n", "        if self._delayedCall:\n", expect_rule="remove/cancel-only-when-idle"),
     Mutant("cancelled-tick-remembered", TASK, "        if not self._tasks and self._delayedCall:\n            self._delayedCall.cancel()\n            self._delayedCall = None\n",
            "        if not self._tasks and self._delayedCall:\n            self._delayedCall.cancel()\n", expect_rule="tick/cancelled-call-forgotten"),
+    # the two repaired findings: reverting either fix: commit must be reported on the finding's construct
+    Mutant("F11-fix-reverted-errback-completes-unconditionally", TASK, _FAILLATER,
+           "                def failLater(failure: Failure) -> None:\n                    self._completeWith(TaskFailed(), failure)\n", expect_rule="complete/once"),
+    Mutant("F11b-fix-reverted-stop-iterates-the-live-list", TASK, _STOPLOOP,
+           "        for taskObj in self._tasks:\n            taskObj._completeWith(SchedulerStopped(), Failure(SchedulerStopped()))\n        self._tasks = []\n",
+           expect_rule="iterate/not-while-mutating"),
+    Mutant("stop-completes-an-unguarded-snapshot", TASK, _STOPLOOP,
+           "        for taskObj in list(self._tasks):\n            taskObj._completeWith(SchedulerStopped(), Failure(SchedulerStopped()))\n        self._tasks = []\n",
+           expect_rule="complete/once"),
     Mutant("stop-forgets-tasks-without-completing", TASK, _STOPLOOP, "        self._tasks = []\n", expect_rule="stop/"),
     Mutant("coiterate-unchained", TASK, "        whenDone.chainDeferred(doneDeferred)\n        return doneDeferred\n", "        whenDone.addErrback(doneDeferred.errback)\n        return doneDeferred\n",
            expect_rule="coiterate/chained-to-whenDone"),
@@ -751,11 +766,14 @@ MUTANTS = [
 ]
 
 SILENT = [
-    Silent("F11-repaired-by-guard", TASK, "                def failLater(failure: Failure) -> None:\n                    self._completeWith(TaskFailed(), failure)\n",
-           "                def failLater(failure: Failure) -> None:\n                    if self._completionState is None:\n                        self._completeWith(TaskFailed(), failure)\n"),
-    Silent("F11b-repaired-by-snapshot", TASK, _STOPLOOP, _STOPLOOP.replace("in self._tasks:", "in list(self._tasks):")),
-    Silent("F11b-repaired-by-draining-from-the-head", TASK, _STOPLOOP,
-           "        while self._tasks:\n            self._tasks[0]._completeWith(SchedulerStopped(), Failure(SchedulerStopped()))\n        self._tasks = []\n"),
+    Silent("F11-guard-spelled-positively", TASK, _FAILLATER,
+           "                def failLater(failure: Failure) -> Optional[Failure]:\n                    if self._completionState is None:\n"
+           "                        self._completeWith(TaskFailed(), failure)\n                        return None\n                    return failure\n"),
+    Silent("F11b-snapshot-with-completion-guard", TASK, _STOPLOOP,
+           "        for taskObj in list(self._tasks):\n            if taskObj._completionState is None:\n"
+           "                taskObj._completeWith(SchedulerStopped(), Failure(SchedulerStopped()))\n        self._tasks = []\n"),
+    Silent("F11b-head-named-before-completing", TASK, _STOPLOOP,
+           "        while self._tasks:\n            head = self._tasks[0]\n            head._completeWith(SchedulerStopped(), Failure(SchedulerStopped()))\n        self._tasks = []\n"),
     Silent("pause-count-compared-flipped", TASK, "        if self._pauseCount == 1:\n            self._cooperator._removeTask(self)\n",
            "        if 1 == self._pauseCount:\n            self._cooperator._removeTask(self)\n"),
     Silent("complete-tests-count-explicitly", TASK, "        if not self._pauseCount:\n            self._cooperator._removeTask(self)\n", "        if self._pauseCount == 0:\n            self._cooperator._removeTask(self)\n"),
@@ -765,11 +783,11 @@ SILENT = [
            "        if self._completionState is not None:\n            assert self._completionResult is not None\n            d.callback(self._completionResult)\n        else:\n            self._deferreds.append(d)\n"),
 
     # --- shapes of the independent refactor set
-    Silent("deferred-branch-in-private-helper", TASK,
-           "                self.pause()\n\n                def failLater(failure: Failure) -> None:\n                    self._completeWith(TaskFailed(), failure)\n\n                result.addCallbacks(lambda result: self.resume(), failLater)\n",
+    Silent("deferred-branch-in-private-helper", TASK, "                self.pause()\n\n" + _FAILLATER + "\n" + _REGISTER,
            "                self._suspendUntil(result)\n",
            more=[(TASK, "    def _oneWorkUnit(self) -> None:\n", "    def _suspendUntil(self, pending) -> None:\n        self.pause()\n\n        def wake(value: object) -> None:\n            self.resume()\n\n"
-                  "        def fail(reason: Failure) -> None:\n            self._completeWith(TaskFailed(), reason)\n\n        pending.addCallbacks(wake, fail)\n\n    def _oneWorkUnit(self) -> None:\n")]),
+                  "        def fail(reason: Failure) -> Optional[Failure]:\n            if self._completionState is not None:\n                return reason\n"
+                  "            self._completeWith(TaskFailed(), reason)\n            return None\n\n        pending.addCallbacks(wake, fail)\n\n    def _oneWorkUnit(self) -> None:\n")]),
     Silent("generator-inlined-into-tick", TASK,
            "        self._delayedCall = None\n        for taskObj in self._tasksWhileNotStopped():\n            taskObj._oneWorkUnit()\n        self._reschedule()\n",
            "        self._delayedCall = None\n        enough = self._terminationPredicateFactory()\n        finished = False\n        while self._tasks and not finished:\n            for current in self._metarator:\n"
@@ -782,7 +800,7 @@ SILENT = [
                   "        firstPause = self._pauseCount == 0\n        self._pauseCount += 1\n        if firstPause:\n            self._cooperator._removeTask(self)\n"),
                  (TASK, "        if not self._pauseCount:\n            self._cooperator._removeTask(self)\n", "        running = self._pauseCount == 0\n        if running:\n            self._cooperator._removeTask(self)\n")]),
     Silent("scheduler-stopped-helper-and-split-conditions", TASK, _STOPLOOP,
-           "        for taskObj in self._tasks:\n            self._rejectStopped(taskObj)\n        self._tasks = []\n",
+           "        while self._tasks:\n            self._rejectStopped(self._tasks[0])\n        self._tasks = []\n",
            more=[(TASK, "            task._completeWith(SchedulerStopped(), Failure(SchedulerStopped()))\n        else:\n", "            self._rejectStopped(task)\n        else:\n"),
                  (TASK, "    def _removeTask(self, task: CooperativeTask) -> None:\n", "    def _rejectStopped(self, task: CooperativeTask) -> None:\n        reason = SchedulerStopped()\n        task._completeWith(reason, Failure(SchedulerStopped()))\n\n    def _removeTask(self, task: CooperativeTask) -> None:\n"),
                  (TASK, "        if not self._tasks and self._delayedCall:\n            self._delayedCall.cancel()\n            self._delayedCall = None\n",
